@@ -6,6 +6,6 @@ cd "$(dirname "$0")"
 ./build.sh >&2 || { echo "HARNESS-ERROR: build failed" >&2; exit 2; }
 id="$1"; shift
 if [ "$1" = "replay" ]; then
-  exec bin/vcheck "$id" -replay "$2"
+  exec "${VERIF_BIN:-bin/vcheck}" "$id" -replay "$2"
 fi
-exec bin/vcheck "$id" -tier "${1:-${VERIF_TIER:-quick}}"
+exec "${VERIF_BIN:-bin/vcheck}" "$id" -tier "${1:-${VERIF_TIER:-quick}}"
